@@ -26,6 +26,7 @@ type faultyReaderAt struct {
 	n       int
 	armed   bool
 	partial bool
+	eof     bool // the failure is an early end of file
 }
 
 func (f *faultyReaderAt) ReadAt(p []byte, off int64) (int, error) {
@@ -33,6 +34,14 @@ func (f *faultyReaderAt) ReadAt(p []byte, off int64) (int, error) {
 		i := f.n
 		f.n++
 		if i == f.k {
+			if f.eof {
+				// the file ends here: fewer bytes than the image had when it was parsed
+				if f.partial && len(p) > 1 {
+					n, _ := f.r.ReadAt(p[:len(p)/2], off)
+					return n, io.EOF
+				}
+				return 0, io.EOF
+			}
 			if f.partial && len(p) > 1 {
 				// part of the data together with the error
 				n, _ := f.r.ReadAt(p[:len(p)/2], off)
@@ -180,11 +189,11 @@ func c15Run(op string, k int, mode string, in []byte) (res string, after []strin
 		fsAfter(rec)
 		return errRes(err), after, true, ncalls
 	case "reader/Parse":
-		fr := &faultyReaderAt{r: bytes.NewReader(in), k: k, armed: true, partial: mode == "partial"}
+		fr := &faultyReaderAt{r: bytes.NewReader(in), k: k, armed: true, partial: mode == "partial" || mode == "partial-eof", eof: strings.HasSuffix(mode, "eof")}
 		_, err := authenticode.Parse(fr)
 		return errRes(err), nil, true, fr.n
 	case "reader/Hash", "reader/Sign", "reader/Verify":
-		fr := &faultyReaderAt{r: bytes.NewReader(in), k: k, partial: mode == "partial"}
+		fr := &faultyReaderAt{r: bytes.NewReader(in), k: k, partial: mode == "partial" || mode == "partial-eof", eof: strings.HasSuffix(mode, "eof")}
 		p, err := authenticode.Parse(fr)
 		if err != nil {
 			return "setup-failed", nil, true, 0
@@ -233,7 +242,7 @@ func init() {
 		return []string{res, strings.Join(after, ","), b01(same), fmt.Sprint(n), strings.Join(lastKinds, ",")}
 	}
 	checkers["C15"] = checker{
-		rule: "operations: SignPKCS7, SignAuthenticode, PECOFFBinary.Sign, SignEFIVariable, WriteSignedUpdate with a failing crypto.Signer; WriteVar, attributes.WriteEfivars, WriteSignedUpdate, GetVar, GetVarWithAttributes, attributes.ReadEfivars, Getdb over a fault-injecting afero.Fs; Parse, Hash, Sign, Verify over a fault-injecting io.ReaderAt; for each operation and input a fault-free run in the sandboxed worker counts the dependency calls, then EVERY position k of that sequence is failed in turn (errors; for the write also a short count with and without an error; for reads of a variable also a legal short read, alone (the value must still be right) and followed by failing reads; for image reads also part of the data together with the error): exhaustive for the sequences the operation issues; the order of the calls of every fault-free run is compared with the program model's (extracted check_call_order: open, [stat, reads,] write, close; the signer before any file-system call); R_C15 (extracted check_fault) requires: no success and no digest, only Close after a failed file-system call, the image object unchanged after a failed Sign, no file-system call after a failed signer, process alive (worker class return); non-trivial = every fault position, distinct by (operation, k, mode, input)",
+		rule: "operations: SignPKCS7, SignAuthenticode, PECOFFBinary.Sign, SignEFIVariable, WriteSignedUpdate with a failing crypto.Signer; WriteVar, attributes.WriteEfivars, WriteSignedUpdate, GetVar, GetVarWithAttributes, attributes.ReadEfivars, Getdb over a fault-injecting afero.Fs; Parse, Hash, Sign, Verify over a fault-injecting io.ReaderAt; for each operation and input a fault-free run in the sandboxed worker counts the dependency calls, then EVERY position k of that sequence is failed in turn (errors; for the write also a short count with and without an error; for reads of a variable also a legal short read, alone (the value must still be right) and followed by failing reads; for image reads also part of the data together with the error, and after Parse a source that ends early, with or without part of the data): exhaustive for the sequences the operation issues; the order of the calls of every fault-free run is compared with the program model's (extracted check_call_order: open, [stat, reads,] write, close; the signer before any file-system call); R_C15 (extracted check_fault) requires: no success and no digest, only Close after a failed file-system call, the image object unchanged after a failed Sign, no file-system call after a failed signer, process alive (worker class return); non-trivial = every fault position, distinct by (operation, k, mode, input)",
 		run:  runC15,
 	}
 }
@@ -305,6 +314,11 @@ func runC15(c *Ctx) {
 			}
 			if strings.HasPrefix(f.op, "reader/") {
 				modes = append(modes, "partial")
+				if f.op != "reader/Parse" {
+					// once an image is parsed its extent is known: a source that ends early has failed
+					// (for Parse itself the end of the source is what defines the image)
+					modes = append(modes, "eof", "partial-eof")
+				}
 			}
 
 			for k := 0; k < n; k++ {
